@@ -219,15 +219,69 @@ def conduit_rules(ctx, c, cfg):
                     "poll_write/closed-before-write", x.loc(), "write happens only on the closed == false edge", "poll_write can write into a closed channel")
 
     with ctx.rule("C12.R6" + sfx, "T2", "dropping either half and poll_shutdown close the channel", floor=3) as r:
-        for adt in ("channel::ByteReader", "channel::ByteWriter"):
-            d = ctx.saw(c.fn(name="drop", self_adt=adt, trait="core::ops::drop::Drop"))
-            cc = {x.block for x in d.calls if x.is_method(COND, "close_channel")}
-            ok, wit = d.must_pass([0], cc)
-            r.check(bool(cc) and ok, "%s::drop=>close_channel" % adt.split("::")[-1], where(d), "Drop calls close_channel on every path", "Drop can return without close_channel")
-        ps = ctx.saw(c.fn(name="poll_shutdown", self_adt=COND))
-        cc = {x.block for x in ps.calls if x.is_method(COND, "close_channel")}
-        ok, wit = ps.must_pass([0], cc)
-        r.check(bool(cc) and ok, "Conduit::poll_shutdown=>close_channel", where(ps), "poll_shutdown closes the channel")
+        # Closing is "closed := true, then wake the peer" - in whatever functions that is written. Summaries over the crate-local call graph:
+        # a body *must close* if every path sets Conduit.closed := true (directly or through a callee that must close); a wake is *late enough*
+        # if a close dominates it. A peer woken before `closed` is set can poll, still see an open channel and park again: nobody wakes it after.
+        memo = {}
+
+        def summary(b, depth=0):
+            if b.defpath in memo:
+                return memo[b.defpath]
+            memo[b.defpath] = {"must_close": False, "may_wake": False, "early_wakes": []}
+            close_blocks = set()
+            for w in field_writes(b, COND, "closed"):
+                if w[2][0] == "use" and w[2][1][0] == "k" and w[2][1][1].get("b") is True:
+                    close_blocks.add(w[0])
+            wakes = []
+            any_wake = False
+            for x in b.calls:
+                if x.name in ("wake", "wake_by_ref") and ("Waker" in x.defpath or "task::wake" in x.defpath):
+                    wakes.append((x, "the peer's waker"))
+                    any_wake = True
+                    continue
+                if depth < 4:
+                    for cb in local_bodies(x):
+                        sm = summary(cb, depth + 1)
+                        any_wake = any_wake or sm["may_wake"]
+                        if sm["must_close"]:
+                            close_blocks.add(x.block)
+                        if sm["may_wake"] and not sm["must_close"]:
+                            wakes.append((x, cb.defpath.split("::")[-1] + "()"))
+                        elif sm["may_wake"] and sm["early_wakes"]:
+                            wakes.append((x, cb.defpath.split("::")[-1] + "() (which wakes before closing)"))
+            early = []
+            for x, what in wakes:
+                # a direct write in the same block precedes the block's call terminator
+                if not any(cbk == x.block and cbk in {w[0] for w in field_writes(b, COND, "closed")} or (cbk != x.block and b.dominates(cbk, x.block)) for cbk in close_blocks):
+                    early.append((x, what))
+            ok, _ = b.must_pass([0], close_blocks) if close_blocks else (False, None)
+            memo[b.defpath] = {"must_close": bool(close_blocks) and ok, "may_wake": any_wake, "early_wakes": early}
+            return memo[b.defpath]
+
+        def local_bodies(call):
+            out = []
+            dp = call.defpath or ""
+            if "swimos_byte_channel" not in dp:
+                return out
+            for cb in c.all_bodies():
+                if cb.defpath == dp:
+                    out.append(cb)
+            return out
+
+        ends = [("ByteReader::drop", ctx.saw(c.fn(name="drop", self_adt="channel::ByteReader", trait="core::ops::drop::Drop"))),
+                ("ByteWriter::drop", ctx.saw(c.fn(name="drop", self_adt="channel::ByteWriter", trait="core::ops::drop::Drop"))),
+                ("Conduit::poll_shutdown", ctx.saw(c.fn(name="poll_shutdown", self_adt=COND)))]
+        for nm, d in ends:
+            sm = summary(d)
+            r.check(sm["must_close"], "%s=>closed" % nm, where(d), "%s marks the channel closed on every path" % nm, "%s can return without marking the channel closed" % nm)
+            r.check(sm["may_wake"], "%s=>wakes-peer" % nm, where(d), "%s wakes a parked peer" % nm, "%s closes the channel without waking a parked peer" % nm)
+            ew = sm["early_wakes"]
+            r.check(not ew, "%s/closed-before-wake" % nm, where(d), "the peer is woken only after `closed` has been set",
+                    "%s wakes %s before the channel is marked closed: a peer polled in between sees an open channel, parks again, and is never woken (no EOF / BrokenPipe)" % (nm, ", ".join(w for _, w in ew)))
+        for dp, sm in sorted(memo.items()):
+            for x, what in sm["early_wakes"]:
+                if sm["must_close"] and not any(dp == d.defpath for _, d in ends):
+                    r.bad("%s/closed-before-wake" % dp.split("::")[-1], x.loc(), "%s wakes %s before (or without) setting `closed` on a closing path" % (dp.split("::")[-1], what))
         cl = ctx.saw(c.fn(name="close_channel", self_adt=COND))
         ws = field_writes(cl, COND, "closed")
         r.check(any(w[2][0] == "use" and w[2][1][0] == "k" and w[2][1][1].get("b") is True for w in ws), "close_channel/closed:=true", where(cl), "close_channel sets closed = true")
